@@ -828,3 +828,84 @@ def sv_solver_table(ctx) -> None:
            "jump operators ⇒ (EvolveDensityMatrix, DensityMatrix); none ⇒ (EvolveStateVector, StateVector)" if bad is None else
            f"SVBackendImpl.__init__: {bad}; expected noise ⇒ (EvolveDensityMatrix, DensityMatrix), none ⇒ "
            f"(EvolveStateVector, StateVector): Lindblad noise is ignored or applied to the wrong object")
+
+
+def adapter_column_order(ctx) -> None:
+    """Column k of the per-step drive arrays belongs to the k-th atom *of the register*: the ids the columns are laid out
+    for are the `qubit_ids` argument filtered in place (a comprehension over it, order preserved) — never a set, a sort or
+    the sampler's own dictionary order — and each column is written at its enumerate position from the samples of the id
+    at that position.  (qubit_ids, bad_atoms, the interaction matrix and atom_order are all in register order.)"""
+    prog = ctx.prog
+    f = prog.func("emu_base.pulser_adapter._extract_omega_delta_phi")
+    ctx.require("qubit_ids" in f.params, "STEP-adapter: _extract_omega_delta_phi has no qubit_ids parameter")
+    assigns = util.single_assignments(f)
+    loops = [n for n in ast.walk(f.node) if isinstance(n, ast.For) and isinstance(n.iter, ast.Call) and
+             util.text(n.iter.func) == "enumerate" and len(n.iter.args) == 1]
+    ctx.require(len(loops) >= 1, "STEP-adapter: no enumerate loop over the atoms in _extract_omega_delta_phi")
+    bad = None
+    for lp in loops:
+        src = lp.iter.args[0]
+        hops = 0
+        while isinstance(src, ast.Name) and src.id in assigns and src.id != "qubit_ids" and hops < 4:
+            src = assigns[src.id]
+            hops += 1
+        if isinstance(src, ast.Call) and util.text(src.func) in ("list", "tuple") and len(src.args) == 1:
+            src = src.args[0]
+        ok_src = isinstance(src, ast.Name) and src.id == "qubit_ids"
+        if isinstance(src, ast.ListComp) and len(src.generators) == 1:
+            g = src.generators[0]
+            it = g.iter
+            if isinstance(it, ast.Call) and util.text(it.func) in ("list", "tuple") and len(it.args) == 1:
+                it = it.args[0]
+            ok_src = isinstance(it, ast.Name) and it.id == "qubit_ids" and isinstance(g.target, ast.Name) and \
+                isinstance(src.elt, ast.Name) and src.elt.id == g.target.id and \
+                all(isinstance(c, ast.Compare) and len(c.ops) == 1 and isinstance(c.ops[0], (ast.In, ast.NotIn)) and
+                    isinstance(c.left, ast.Name) and c.left.id == g.target.id for c in g.ifs)
+        if not ok_src:
+            bad = f"the atoms are enumerated from `{util.text(src, 60)}` (line {lp.lineno}), not from the qubit_ids argument filtered in order"
+            continue
+        if not (isinstance(lp.target, ast.Tuple) and len(lp.target.elts) == 2 and all(isinstance(e, ast.Name) for e in lp.target.elts)):
+            bad = "the enumerate loop does not unpack (position, id)"
+            continue
+        pos, qid = (e.id for e in lp.target.elts)
+        stores = [n for n in ast.walk(lp) if isinstance(n, ast.Assign) and isinstance(n.targets[0], ast.Subscript)]
+        col_ok = bool(stores) and all(
+            isinstance(s.targets[0].slice, ast.Tuple) and len(s.targets[0].slice.elts) == 2 and
+            isinstance(s.targets[0].slice.elts[1], ast.Name) and s.targets[0].slice.elts[1].id == pos for s in stores)
+        reads = [n for n in ast.walk(lp) if isinstance(n, ast.Subscript) and isinstance(n.ctx, ast.Load) and
+                 isinstance(n.slice, ast.Name) and n.slice.id == qid]
+        if not col_ok:
+            bad = "a column is not written at the enumerate position of its atom"
+        elif not reads:
+            bad = "the samples are not looked up by the id at the enumerate position"
+    ctx.ob("STEP-adapter", "columns follow the register order", f.loc(), bad is None,
+           "columns are laid out for [q for q in qubit_ids if …] and written at their enumerate position from that id's samples"
+           if bad is None else
+           f"_extract_omega_delta_phi: {bad}: omega/delta/phi columns are then in another order than qubit_ids, bad_atoms, the "
+           f"interaction matrix and atom_order (per-atom drives land on the wrong atoms for ids that are not sorted, e.g. q10 < q2)")
+
+
+def adapter_column_ids(ctx) -> None:
+    """…and the ids handed to _extract_omega_delta_phi are the register's, in the register's order."""
+    from .adapter import _run, PA
+    from ..interp import field_defs
+    prog = ctx.prog
+    K = prog.cls(PA + "PulserData")
+    g, gp = _run(ctx, PA + "PulserData.get_sequences", cls=PA + "PulserData", loop_iters=(1,))
+    n = 0
+    bad = None
+    for p in gp:
+        for e in p.events:
+            if e.kind == "call" and e.name == PA + "_extract_omega_delta_phi":
+                n += 1
+                v = strip_typed(e.args.get("qubit_ids"))
+                if v != ("attr", SELF, "qubit_ids"):
+                    bad = f"_extract_omega_delta_phi(qubit_ids={show(v)[:40]})"
+    ctx.require(n >= 1, "STEP-adapter: get_sequences never calls _extract_omega_delta_phi")
+    defs = [strip_typed(v) for v, ev in field_defs(prog, K).get("qubit_ids", []) if ev.func.name == "__init__"]
+    seq = ("param", PA + "PulserData.__init__", "sequence")
+    if bad is None and defs != [("attr", ("attr", seq, "register"), "qubit_ids")]:
+        bad = f"PulserData.qubit_ids = {[show(d)[:40] for d in defs]}"
+    ctx.ob("STEP-adapter", "ids are the register's", g.loc(), bad is None,
+           "the drive columns are laid out for sequence.register.qubit_ids" if bad is None else
+           f"{bad}: not sequence.register.qubit_ids — the drive columns follow another order than the register")
